@@ -295,7 +295,8 @@ def strategy(focus="membership"):
         for _ in range(draw(st.integers(0, 6))):
             sel = draw(st.sampled_from(["join", "join", "sync", "sync", "heartbeat", "heartbeat", "offset_commit",
                                         "offset_fetch", "find_coordinator", "fetch", "metadata"]))
-            act = draw(st.sampled_from(["error", "error", "drop", "apply_drop", "no_reply", "delay"]))
+            # swallow: the connection goes silently dead - this request and everything behind it is never answered
+            act = draw(st.sampled_from(["error", "error", "drop", "apply_drop", "no_reply", "delay", "swallow"]))
             if sel == "metadata":
                 act = draw(st.sampled_from(["stale", "drop", "delay"]))
             faults.append({"sel": sel, "k": draw(st.integers(0, 8)), "act": act, "code": draw(st.sampled_from(ERR[sel])),
